@@ -60,23 +60,23 @@ def run(tier):
     proof = proof_status(PROP, thorough)
     oc = Outcome(PROP)
     oc.rule = ("every file written by the real generators (state machine C++/C#/Python with tables containing repeated actions on different events, target-only states, rows without guard/action/target, "
-               "near-miss and concatenation-ambiguous names, event interfaces with parameters, user-tag settings; protocol; UML diagrams of the test project, both back ends, namespace folders on/off) "
+               "near-miss and concatenation-ambiguous names, event interfaces with parameters, user-tag settings; protocol; UML diagrams of the test project and synthesised class diagrams (read-only attributes, modelled constructors of every arity, interfaces, structs, enumerations), both back ends, namespace folders on/off) "
                "into an empty directory: accepted by the Lean driver's wfFresh/noGenTag and by an independent Python evaluation; non-trivial = file with at least one tag pair")
     oc.assumptions = TRUSTED
     r = rng(PROP)
     runner = genlib.Runner()
     reqs, pend = [], []
-    n = 400 if thorough else 60
+    n = 500 if thorough else 90
     with scratch() as base:
         for i in range(n):
-            model = genlib.rand_model(r, ("sm", "sm", "sm", "sm", "proto", "uml"), big=r.random() < 0.3)
+            model = genlib.rand_model(r, ("sm", "sm", "sm", "proto", "uml", "uml", "uml"), big=r.random() < 0.3)
             out = os.path.join(base, "o%d" % i)
             try:
                 runner.generate(model, out)
             except Exception as e:      # noqa
                 oc.violations.append(dict(what="generator raised %s: %s" % (type(e).__name__, e), model=model))
                 break
-            oc.stat("kind_" + model["kind"] + "_" + str(model.get("backend")))
+            oc.stat("kind_" + model["kind"] + "_" + str(model.get("backend")) + ("_synthesised" if model.get("synth") else ""))
             check_tree(oc, out, dict(model=model), reqs, pend)
     for (info, problems, dup), a in zip(pend, lean_batch(reqs)):
         oc.traces_validated += 1
@@ -90,13 +90,13 @@ def run(tier):
         if not lean_ok:
             is_uml = info["model"]["kind"] == "uml"
             only_dup = a["nogentag"] and a["parses"] and a["items"] and not a["nodup"]
-            if is_uml and only_dup and findings.uml_dup_known_shape(dup):
+            if is_uml and only_dup and findings.uml_dup_known_shape(dup, info["model"]):
                 findings.record(oc, PROP, findings.UML_DUP, True, dict(file=info["file"], dup=sorted(dup)))
             else:
                 oc.violations.append(dict(what="generated file %s is not re-preservable: %s" % (info["file"], problems or a), **info))
     # the recorded finding is probed on its own witness too
     model, rel, dups = findings.uml_dup_witness(runner)
-    if rel and findings.uml_dup_known_shape(dups):
+    if rel and findings.uml_dup_known_shape(dups, model):
         findings.record(oc, PROP, findings.UML_DUP, True, dict(file=rel, dup=sorted(dups)))
     elif not rel:
         findings.record(oc, PROP, findings.UML_DUP, False, {})
